@@ -111,6 +111,69 @@ type Fact struct {
 	Value bool
 }
 
+// InitFacts returns the valuation of trackable conditions established by the branch outcomes dominating n, as far as
+// no statement between the test and n (on the dominator chain) assigns to a variable of the condition.
+func (g *Graph) InitFacts(n *Node, fields bool) map[string]bool {
+	g.computeDom()
+	out := map[string]bool{}
+	if g.idom[n.ID] < 0 {
+		return out
+	}
+	// walk up the dominator chain, remembering what gets written below each test
+	var chain []*Node
+	for x := n.ID; x != g.Entry.ID; x = g.idom[x] {
+		chain = append(chain, g.Nodes[x])
+	}
+	// from the top down: apply facts, invalidate through assignments on the chain. Statements off the chain (inside
+	// branches that rejoin) can also write: be conservative and drop every key whose variable is assigned anywhere
+	// between — approximated by: assigned in any node dominated by the test and not dominating n is ignored only when
+	// no such assignment exists in the function at all besides those on the chain.
+	assignedOffChain := map[string]bool{}
+	onChain := map[int]bool{}
+	for _, c := range chain {
+		onChain[c.ID] = true
+	}
+	for _, y := range g.Nodes {
+		if onChain[y.ID] {
+			continue
+		}
+		switch s := y.Stmt.(type) {
+		case *ast.AssignStmt:
+			if y.Kind == KStmt {
+				for _, l := range s.Lhs {
+					if id, ok := ast.Unparen(l).(*ast.Ident); ok {
+						assignedOffChain[id.Name] = true
+					}
+				}
+			}
+		case *ast.IncDecStmt:
+			if id, ok := ast.Unparen(s.X).(*ast.Ident); ok && y.Kind == KStmt {
+				assignedOffChain[id.Name] = true
+			}
+		}
+	}
+	for i := len(chain) - 1; i >= 0; i-- {
+		nd := chain[i]
+		if (nd.Kind == KTrue || nd.Kind == KFalse) && nd.Of.Kind == KCond {
+			if key, neg, ok := g.CondKeyOf(nd.Of, fields); ok {
+				out[key] = (nd.Kind == KTrue) != neg
+			}
+		}
+		if len(out) > 0 {
+			g.invalidate(nd, out, nil)
+		}
+	}
+	for k := range out {
+		for w := range assignedOffChain {
+			if mentions(k, w) {
+				delete(out, k)
+				break
+			}
+		}
+	}
+	return out
+}
+
 // DomFacts returns the branch outcomes that dominate n (nearest first).
 func (g *Graph) DomFacts(n *Node) []Fact {
 	g.computeDom()
@@ -230,6 +293,9 @@ type Search struct {
 	// It is only sound for conditions whose operands are not modified between the tests the
 	// rule relates; each use states why.
 	AssumeRaw map[string]bool
+	// Init is the valuation known at the start nodes (for instance the branch outcomes dominating them, see
+	// InitFacts); unlike Assume it is forgotten, flipped or fixed by assignments along the path. Needs Track.
+	Init      map[string]bool
 	MaxStates int
 }
 
@@ -261,6 +327,9 @@ func (g *Graph) Path(q Search) []*Node {
 	_ = initVal
 	start := func(n *Node) {
 		v := map[string]bool{}
+		for k, b := range q.Init {
+			v[k] = b
+		}
 		for k, b := range q.Assume {
 			v[k] = b
 		}
@@ -486,7 +555,30 @@ func (g *Graph) invalidate(n *Node, val map[string]bool, keep map[string]bool) {
 	if len(written) == 0 {
 		return
 	}
+	// `x = !x` flips and `x = true|false` fixes a known valuation of the flag x itself instead of forgetting it
+	flipped := ""
+	if as, ok := n.Stmt.(*ast.AssignStmt); ok && n.Kind == KStmt && as.Tok == token.ASSIGN && len(as.Lhs) == 1 && len(as.Rhs) == 1 {
+		if id, ok := as.Lhs[0].(*ast.Ident); ok {
+			if old, known := val[id.Name]; known {
+				switch r := ast.Unparen(as.Rhs[0]).(type) {
+				case *ast.UnaryExpr:
+					if rid, ok := ast.Unparen(r.X).(*ast.Ident); ok && r.Op == token.NOT && rid.Name == id.Name {
+						val[id.Name] = !old
+						flipped = id.Name
+					}
+				case *ast.Ident:
+					if r.Name == "true" || r.Name == "false" {
+						val[id.Name] = r.Name == "true"
+						flipped = id.Name
+					}
+				}
+			}
+		}
+	}
 	for k := range val {
+		if k == flipped {
+			continue
+		}
 		if _, stipulated := keep[k]; stipulated {
 			// an assumption stipulates the outcome of every test of that condition (the rules
 			// using it separately establish that the tested option is never written)
